@@ -186,6 +186,10 @@ def _shape1(t, sa):
     k = t[0]
     if k in ("T", "H"):
         return (sa[1], sa[0])
+    if k == "gram":
+        if t[1] in ("AA", "AAA"):
+            return sa if sa[0] == sa[1] else None
+        return (sa[1], sa[1]) if t[1] in ("HA", "TA") else (sa[0], sa[0])
     if k == "slice":
         r, c = _slice_len(t[2], sa[0]), _slice_len(t[3], sa[1])
         return None if (r is None or c is None or r == 0 or c == 0) else (r, c)
